@@ -551,7 +551,7 @@ func runC07Quote(c *Ctx) {
 	// the function of rule_glob.go that adjusts the column of a position: globErrors itself, or a helper it calls
 	var gfn *ssa.Function
 	for _, f := range p.Funcs {
-		if !strings.HasSuffix(p.File(f.Pos()), "/rule_glob.go") {
+		if !strings.HasSuffix(p.unitFile(f), "/rule_glob.go") {
 			continue
 		}
 		eachInstr(f, func(_ *ssa.BasicBlock, _ int, in ssa.Instruction) {
